@@ -978,6 +978,37 @@ def exec_areadv(g, h, d):
             "d": {str(k): [b2l(x) for x in v] for k, v in dres.items()}}
 
 
+def exec_big_rtw(g, h, d):
+    """the last request of a history: ONE read-test-write call through the client's adapter that names two shares of a slot with
+    3 MiB of new data each and carries a test on the second share that does not hold.  All or nothing: the call must report
+    failure and neither server may change (the Spec's RTW: a failing test applies no write of the request)."""
+    from allmydata.storage_client import _HTTPStorageServer
+    rng = VIA_RNG
+    si = rng.choice(SISM)
+    a, b = sorted(rng.sample(SHNUMS, 2))
+    cur = h.obs(si)
+    first = cur[b]["data"][0] if cur[b]["present"] and cur[b]["data"] else 0
+    spec = bytes([(first + 1) % 256])                      # differs from the byte at offset 0 (an absent share reads as empty)
+    we = WE[correct_we(h, si, rng)]
+    rs, cs = SECRETS["r1"], SECRETS["c1"]
+    blob = bytes([7]) * (3 * 1024 * 1024)
+    before, dbefore = h.digest(), d.digest()
+    adapter = _HTTPStorageServer.from_http_client(h.client)
+    res = h.run(adapter.slot_testv_and_readv_and_writev(SI[si], (we, rs, cs), {int(a): ([], [(0, blob)], None),
+                                                                               int(b): ([(0, 1, spec)], [(0, blob)], None)}, []))
+    if hasattr(res, "check"):
+        success, how = False, type(res.value).__name__
+    else:
+        success, how = bool(res[0]), "ok"
+    try:
+        dok, _ = d.ss.slot_testv_and_readv_and_writev(SI[si], (we, rs, cs), {int(a): ([], [(0, blob)], None),
+                                                                             int(b): ([(0, 1, b"eq", spec)], [(0, blob)], None)}, [])
+    except Exception as ex:
+        dok = type(ex).__name__
+    return {"ev": "ABigRTW", "si": si, "shares": [a, b], "success": success, "how": how, "same": h.digest() == before,
+            "dsuccess": dok, "dsame": d.digest() == dbefore}
+
+
 def compare_trees(h, d):
     def norm(files):
         out, seen = {}, {}
@@ -1003,7 +1034,7 @@ TWIN_RTW = [("rtw", 40), ("mread", 8), ("mlist", 3), ("advance", 3), ("wrongenab
 TWIN_RTW_OPS = [o for o, w in TWIN_RTW for _ in range(w)]
 
 
-def twin_trace(rng, work, nevents, zero_read, focus=""):
+def twin_trace(rng, work, nevents, zero_read, focus="", big_rtw=False):
     h, d = Server(work, True), Server(work, False)
     g = Gen(rng, 0)
     writers = {}
@@ -1060,6 +1091,8 @@ def twin_trace(rng, work, nevents, zero_read, focus=""):
                 res = h.run(cl.read_share_chunk(SI[si], int(sh), r["a"]["off"], 0))
                 got = "empty" if res == b"" else (type(res.value).__name__ if hasattr(res, "check") else "other")
                 events.append({"ev": "ClientRead0", "r": r, "got": got, "d": {"res": direct_call(d, writers, r)}})
+        if big_rtw:
+            events.append(exec_big_rtw(g, h, d))
         tree = compare_trees(h, d)
         return {"consts": {"sisI": SISI, "sisM": SISM, "shnums": SHNUMS, "readonly": False, "capacity0": 1000000, "reserved": 0, "mode": "twin"},
                 "events": events, "tree": tree}
@@ -1092,7 +1125,7 @@ def main():
                 traces.append(authz_trace(rng, work, mine, max(0, a.events - per - 5), expiring=(i % 3 == 1)))
         else:
             for i in range(a.n):
-                traces.append(twin_trace(rng, work, a.events, zero_read=(i % 10 == 9), focus=a.focus))
+                traces.append(twin_trace(rng, work, a.events, zero_read=(i % 10 == 9), focus=a.focus, big_rtw=(i % 5 == 2)))
     finally:
         shutil.rmtree(work, ignore_errors=True)
     with open(a.out, "w") as f:
